@@ -206,10 +206,14 @@ pub fn build_items(items: &[Item], fat32: bool, lfn_cap: usize) -> (Vec<Slot>, V
                         e = Expect::DontCare;
                     }
                     Broken::MixedCsum => {
+                        // one fragment of the run carries a different checksum: whichever it is, the
+                        // run does not have "a checksum that matches the short entry"
                         if n >= 2 {
-                            run[1].2 = csum.wrapping_add(7);
+                            let k = (frags[0][0] as usize ^ name[0] as usize) % n;
+                            run[k].2 = csum.wrapping_add(7);
+                        } else {
+                            e = Expect::DontCare;
                         }
-                        e = Expect::DontCare;
                     }
                     Broken::TwentyFragments => {
                         e = Expect::DontCare;
